@@ -58,6 +58,9 @@ def gen_prog(rng, depth, nuniq, fresh):
     return ("use", new, gen_prog(rng, depth - 1, nuniq, fresh))
 
 
+RESOLVED = []
+
+
 def run_prog(xt, pf, getstore, p, crash, counter, trace, idof, keep):
     k = p[0]
     if k == "call":
@@ -81,6 +84,8 @@ def run_prog(xt, pf, getstore, p, crash, counter, trace, idof, keep):
             new = list(pf.objparams())
         elif new == "current-prefix":
             new = list(pf.objparams())[:-1]
+        # what "current" meant at the moment this block was entered (the model gets the same list)
+        RESOLVED.append((id(p), [idof[id(t)] for t in new]))
         with pf.useobjparams(new):
             run_prog(xt, pf, getstore, p[2], crash, counter, trace, idof, keep)
 
@@ -95,7 +100,7 @@ def prog_coq(p, resolve):
         return "(PDisable %s)" % prog_coq(p[1], resolve)
     if k == "debug":
         return "(PDebug %s %s)" % (cbool(p[1]), prog_coq(p[2], resolve))
-    return "(PUse %s %s)" % (nl(resolve(p[1])), prog_coq(p[2], resolve))
+    return "(PUse %s %s)" % (nl(resolve(p[1], p)), prog_coq(p[2], resolve))
 
 
 def count_calls(p):
@@ -197,11 +202,13 @@ def program_cases(ctx, cases, meta):
             fcur = [idmap[id(t)] for t in pf.objparams()]
             fdbg = xt.is_debug_enabled()
 
-            def resolve(new):
-                if new == "current":
-                    return cur0
-                if new == "current-prefix":
-                    return cur0[:-1]
+            resolved = dict(RESOLVED)
+            del RESOLVED[:]
+
+            def resolve(new, node=None):
+                if isinstance(new, str):
+                    # blocks that were not reached in this run are not reached by the model either
+                    return resolved.get(id(node), cur0 if new == "current" else cur0[:-1])
                 return [idmap[id(t)] for t in new]
             cases.append("case_ok %s %s %s %s %s %s %s %s %s %s %s" % (
                 nl(pat), cbool(d0), prog_coq(prog, resolve), "None" if crash is None else "(Some %d)" % crash,
